@@ -347,7 +347,8 @@ def finish(prop_id, tier, seed, level, proof, result, t0, design_ref=""):
     for l in lines:
         print(l)
     print("%s %s tier=%s seed=%d theorems=%d/%d cases=%d distinct=%d violations=%d known=%d wall=%.1fs" % (
-        "PASS" if exit_code == 0 else "FAIL", prop_id, tier, seed, cov["discharged"], cov["obligations"],
+        "PASS" if exit_code == 0 else "FAIL", prop_id, tier, seed,
+        cov.get("discharged", cov.get("discharged_attempted", 0)), cov.get("obligations", cov.get("obligations_attempted", 0)),
         result.evaluations, len(result.distinct), len(new_viol), len(known_hit), time.time() - t0))
     return exit_code
 
